@@ -190,7 +190,7 @@ func oneElementList(v ssa.Value, elem ssa.Value) bool {
 }
 
 var ruleZipMarkers = &core.Rule{ID: "R19.1", Min: 8,
-	Doc: "zip markers: docx/xlsx/pptx look for word/, xl/, ppt/ with the OOXML first-entry list on, jar for META-INF/MANIFEST.MF with it off, on the unmodified header; the OOXML first-entry list contains [Content_Types].xml; all these nodes are children of application/zip and apk precedes jar",
+	Doc: "zip markers: docx/xlsx/pptx look for word/, xl/, ppt/ with the OOXML first-entry list on, jar for META-INF/MANIFEST.MF with it off, on the unmodified header (through the three-argument walker, a several-markers core it forwards to, or named two-argument entries that fix the flag); the OOXML first-entry list contains [Content_Types].xml; all these nodes are children of application/zip and apk precedes jar",
 	Run: func(c *core.Ctx, s *core.Sink) {
 		tm := tree.Get(c)
 		zw, z := zipWalker(c, tm)
